@@ -231,6 +231,8 @@ pub struct Sol {
     pub rows: Vec<(String, f64)>,
     /// Builder entries only: value read back through each declared variable's handle.
     pub handle_values: Option<Vec<Option<f64>>>,
+    /// `LpSolution::value_of(name)` for every name in the assignment, in the same order.
+    pub lookups: Vec<Option<f64>>,
 }
 
 #[derive(Clone, Debug, PartialEq)]
@@ -455,6 +457,11 @@ where
             .map(|(n, v)| (n.clone(), *v))
             .collect(),
         handle_values: None,
+        lookups: s
+            .assignment()
+            .iter()
+            .map(|a| s.value_of(&a.name).map(Into::into))
+            .collect(),
     }
 }
 
